@@ -104,6 +104,7 @@ type Obligation struct {
 	Solver  string
 	Ms      int64
 	Model   string
+	ModelQuery string // query the model belongs to when it is only a candidate (quantifier-free weakening)
 	Outputs map[string]string
 }
 
@@ -163,6 +164,7 @@ type FnCtx struct {
 	ghostNames  map[string]Term // names bound to results of calls made by the function under verification
 	ghostKeys   map[string]string // ghost name -> call key (for called(name))
 	inputSyms   []string
+	reqStart, reqEnd int          // assertions [reqStart, reqEnd) are the function's preconditions
 	spawned     []map[string]bool // write sets of goroutines started without a contract (havoc'd at spawn and at every Wait)
 }
 
